@@ -534,10 +534,25 @@ pub fn run_state_case(spec: &Spec, out: &mut dyn Write) -> GeomOut {
         }
         // C08: after optimisation (possibly several chained stages) every parameter is within the range
         // declared for the state the chain started from, and the score is defined and finite
-        if spec.kv.contains_key("opt") && !spec.kv.contains_key("len") {
+        if spec.kv.contains_key("opt") {
             let mut s0 = spec.clone();
             s0.kv.remove("opt");
-            if let Ok(init) = catch_unwind(AssertUnwindSafe(|| build(&s0))) {
+            // "given a valid state": an injected start state counts when its score is defined and finite and
+            // its parameters lie in the ranges the optimiser itself may produce (the side ratio may exceed 1)
+            let valid_start = |init: &St| -> bool {
+                if !spec.kv.contains_key("len") {
+                    return true;
+                }
+                let j = init.json();
+                let s = &j["occupied_sites"][0];
+                let (l, r, a) = (j["cell"]["length"].as_f64().unwrap_or(f64::NAN), j["cell"]["ratio"].as_f64().unwrap_or(f64::NAN), j["cell"]["angle"].as_f64().unwrap_or(f64::NAN));
+                let (x, y, p) = (s["x"].as_f64().unwrap_or(f64::NAN), s["y"].as_f64().unwrap_or(f64::NAN), s["angle"].as_f64().unwrap_or(f64::NAN));
+                let ang_ok = if want == "Monoclinic" { a >= PI / 6. && a <= PI / 2. } else { a == std::f64::consts::FRAC_PI_2 };
+                init.score().map(|v| v.is_finite()).unwrap_or(false)
+                    && l >= 0.01 && r >= 0.1 && ang_ok && x >= -0.5 && x <= 0.5 && y >= -0.5 && y <= 0.5 && p >= 0. && p <= 2. * PI
+                    && j["occupied_sites"].as_array().map(|v| v.len()).unwrap_or(0) == 1
+            };
+            if let Some(init) = catch_unwind(AssertUnwindSafe(|| build(&s0))).ok().filter(|i| valid_start(i)) {
                 let j0 = init.json();
                 let g = |v: &Value, a: &str, b: &str| -> f64 { v[a][b].as_f64().unwrap_or(f64::NAN) };
                 let (l0, l1) = (g(&j0, "cell", "length"), g(&js, "cell", "length"));
@@ -1261,8 +1276,109 @@ pub fn run_lj2_case(spec: &Spec, out: &mut dyn Write) -> GeomOut {
     GeomOut { findings: f, meta: format!("lj2=true like={} inside={}", like, c1.map(|c| rr < c).unwrap_or(true)) }
 }
 
+/// mode=order (C09, C10): three variants of one state (cell length moved by `dlen=i:j:k` ulps, site x by
+/// `dx=i:j:k` ulps) - the order on the states must be the order of their scores, and `max` must not depend
+/// on how the three are combined.  Emits the scores and every comparison for the model.
+fn order_case<S>(st: &S, spec: &Spec, out: &mut dyn Write) -> GeomOut
+where
+    S: State + serde::Serialize + serde::de::DeserializeOwned,
+{
+    let mut f: Vec<Finding> = vec![];
+    let ul = |x: f64, d: i64| -> f64 { f64::from_bits((x.to_bits() as i64 + if x >= 0. { d } else { -d }) as u64) };
+    let parse3 = |k: &str| -> Vec<i64> {
+        spec.kv.get(k).map(|v| v.split(':').map(|t| t.parse().unwrap()).collect()).unwrap_or(vec![0, 0, 0])
+    };
+    let (dl, dx) = (parse3("dlen"), parse3("dx"));
+    let base = serde_json::to_value(st).unwrap();
+    let mut vars: Vec<S> = vec![];
+    for i in 0..3 {
+        let mut v = base.clone();
+        let l = v["cell"]["length"].as_f64().unwrap();
+        let x = v["occupied_sites"][0]["x"].as_f64().unwrap();
+        v["cell"]["length"] = json!(ul(l, dl[i]));
+        v["occupied_sites"][0]["x"] = json!(ul(x, dx[i]));
+        vars.push(serde_json::from_value(v).expect("variant"));
+    }
+    let sc: Vec<Option<f64>> = vars.iter().map(|s| s.score()).collect();
+    let ident = |s: &S| -> usize {
+        let v = serde_json::to_value(s).unwrap();
+        let key = |v: &Value| (v["cell"]["length"].as_f64().unwrap().to_bits(), v["occupied_sites"][0]["x"].as_f64().unwrap().to_bits());
+        let k = key(&v);
+        // the LAST variant with this identity (identical variants are interchangeable)
+        (0..3).rev().find(|&i| key(&serde_json::to_value(&vars[i]).unwrap()) == k).unwrap_or(9)
+    };
+    let code = |o: Option<std::cmp::Ordering>| match o {
+        Some(std::cmp::Ordering::Less) => 'L',
+        Some(std::cmp::Ordering::Equal) => 'E',
+        Some(std::cmp::Ordering::Greater) => 'G',
+        None => 'N',
+    };
+    let mut cmps = String::new();
+    let mut eqs = String::new();
+    for i in 0..3 {
+        for j in 0..3 {
+            let c = code(vars[i].partial_cmp(&vars[j]));
+            let e = vars[i] == vars[j];
+            cmps.push(c);
+            eqs.push(if e { '1' } else { '0' });
+            // the property itself: the order on states is the order of their scores
+            let want = match (sc[i], sc[j]) {
+                (Some(a), Some(b)) => code(a.partial_cmp(&b)),
+                _ => 'N',
+            };
+            let want_eq = match (sc[i], sc[j]) {
+                (Some(a), Some(b)) => a == b,
+                _ => false,
+            };
+            if c != want || e != want_eq {
+                add(&mut f, "C09,C10", format!(
+                    "states with scores {:?} and {:?} compare as {} (==: {}), their scores as {} (==: {})",
+                    sc[i], sc[j], c, e, want, want_eq));
+            }
+        }
+    }
+    let all_defined = sc.iter().all(|s| s.map(|x| !x.is_nan()).unwrap_or(false));
+    let idx = |r: std::thread::Result<S>| -> String { match r { Ok(s) => ident(&s).to_string(), Err(_) => "P".into() } };
+    let (a, b, c) = (vars[0].clone(), vars[1].clone(), vars[2].clone());
+    let left = idx(std::panic::catch_unwind(std::panic::AssertUnwindSafe(|| std::cmp::max(std::cmp::max(a.clone(), b.clone()), c.clone()))));
+    let right = idx(std::panic::catch_unwind(std::panic::AssertUnwindSafe(|| std::cmp::max(a.clone(), std::cmp::max(b.clone(), c.clone())))));
+    let iter = idx(std::panic::catch_unwind(std::panic::AssertUnwindSafe(|| vars.iter().cloned().max().unwrap())));
+    if all_defined {
+        let best = sc.iter().map(|s| s.unwrap()).fold(f64::NEG_INFINITY, f64::max);
+        for (name, r) in [("max(max(a,b),c)", &left), ("max(a,max(b,c))", &right), ("iter().max()", &iter)] {
+            match r.parse::<usize>() {
+                Ok(i) if i < 3 => {
+                    if sc[i].unwrap() != best {
+                        add(&mut f, "C09,C10", format!("{} returns the variant scoring {:?}, the best of {:?} is {:?}", name, sc[i].unwrap(), sc, best));
+                    }
+                }
+                _ => add(&mut f, "C09,C10", format!("{} on three scored states did not return one of them ({})", name, r)),
+            }
+        }
+        if left != right || left != iter {
+            add(&mut f, "C09", format!("the reduction depends on how the replicas are combined: left {} right {} iterator {} (scores {:?})", left, right, iter, sc));
+        }
+    }
+    writeln!(out, "K {}", spec.text).unwrap();
+    writeln!(out, "O {} {} {} {} {} {} {} {}", sc[0].map(hex).unwrap_or("N".into()), sc[1].map(hex).unwrap_or("N".into()),
+             sc[2].map(hex).unwrap_or("N".into()), cmps, eqs, left, right, iter).unwrap();
+    writeln!(out, "E").unwrap();
+    let distinct = { let mut v: Vec<u64> = sc.iter().flatten().map(|x| x.to_bits()).collect(); v.sort(); v.dedup(); v.len() };
+    GeomOut { findings: f, meta: format!("order=true defined={} distinct_scores={}", all_defined, distinct) }
+}
+
+pub fn run_order_case(spec: &Spec, out: &mut dyn Write) -> GeomOut {
+    let st = build(spec);
+    match &st {
+        St::Poly(s) => order_case(s, spec, out),
+        St::Mol(s) => order_case(s, spec, out),
+        St::Lj(s) => order_case(s, spec, out),
+    }
+}
+
 pub fn run_case(spec: &Spec, out: &mut dyn Write) -> GeomOut {
     match spec.get_or("mode", "state") {
+        "order" => run_order_case(spec, out),
         "pair" => run_pair_case(spec, out),
         "lj2" => run_lj2_case(spec, out),
         _ => run_state_case(spec, out),
